@@ -133,7 +133,7 @@ CLAIMS['C02'] = dict(
        'every factorisation; rank = max(1, min(cap, len - dropped)) on a bounded grid '
        'and the droppable tail is the longest with energy <= e^2; e and r reach every factorisation call and the final rounding '
        'of add_many; results are well formed with the input mode sizes. '
-       'No quantity that scales with the data is compared with a non-zero literal written in the comparison (absolute thresholds inside matrix_svd / matrix_skeleton / truncate).',
+       'No quantity that scales with the data is compared with a non-zero literal written in the comparison (absolute thresholds inside matrix_svd / matrix_skeleton / truncate). The accuracy of truncate is divided by sqrt(len(tensor) - 1).',
   note='Not decided: the inequality ||Y-Z|| <= e||Y||, quasi-optimal ranks as values, behaviour exactly at a threshold, rounding. '
        'Trusted: orthogonality axioms of LAPACK-backed factorizations.')
 CLAIMS['C03'] = dict(
